@@ -86,3 +86,9 @@ func specIsScriptError(x interface{}) bool {
 	}
 	return false
 }
+
+// specForeignObject: v is an Object that belongs to a Runtime other than r.
+func specForeignObject(v Value, r *Runtime) bool {
+	o, ok := v.(*Object)
+	return ok && o != nil && o.runtime != nil && o.runtime != r
+}
